@@ -1,7 +1,8 @@
 """C04: expect() over pattern lists mixing literals and regexes, on fragmented streams."""
 import changen as g
 from wire import hx, opt, lst
-from chancommon import KIND, CASE_WALL, run_impl, shrink_candidates, classify_common  # noqa: F401
+from chancommon import KIND, CASE_WALL, run_impl, shrink_candidates, classify_common, model_request, spec_line  # noqa: F401
+import regen
 
 SPECS = ["C04"]
 THEOREMS = ["C04.expectLoop_spec", "C04.expect_spec", "Pat.search_bound", "C04.case_spec", "ChanCase.keeps"]
@@ -19,11 +20,27 @@ def gen_case(rng, params):
     chunk = rng.choice([1, 2, 3, 7, params["readChunkSize"], params["readChunkSize"]])
     prompt = rng.choice(g.PROMPTS)
     data = g.gen_stream(rng, prompt, rng.choice([1, 2, 3]))
+    flagged = None
+    if rng.random() < 0.3:
+        # one regex is used with AND without re.IGNORECASE in consecutive calls of the case; the stream holds samples of
+        # it in both cases (what matches must depend on the flags of the pattern given, not of an earlier one)
+        flagged = regen.gen(rng, b"abx >", depth=rng.randint(1, 2))
+        if flagged.nullable():
+            flagged = regen.Seq(regen.Cls([(97, 98)]), flagged)
+        extra = bytearray()
+        for _ in range(rng.randint(1, 3)):
+            occ = regen.sample(flagged, rng)
+            extra += bytes(regen._swapcase(c) if rng.random() < 0.6 else c for c in occ) + g.rbytes(rng, rng.randint(0, 3))
+        cut_at = rng.randint(0, len(data))
+        data = data[:cut_at] + bytes(extra) + data[cut_at:]
+        first_icase = rng.random() < 0.5
     pieces = g.cut(rng, data)
     ticks = g.schedule(rng, pieces)
     ops = []
-    for _ in range(rng.randint(1, 3)):
+    for n_op in range(rng.randint(2, 3) if flagged is not None else rng.randint(1, 3)):
         pats = []
+        if flagged is not None:
+            pats.append(regen.Pat("re", flagged, icase=first_icase == (n_op % 2 == 0)).wire())
         for _ in range(rng.randint(1, 4)):
             k = rng.random()
             if k < 0.35 and len(data) > 1:
@@ -33,12 +50,15 @@ def gen_case(rng, params):
                 pats.append(pats[-1][:-2])            # proper prefix of the previous literal
             else:
                 pats.append(g.gen_pat(rng).wire())
+        if flagged is not None:
+            rng.shuffle(pats)
         ops.append(f"ex:{opt(g.timeout_choice(rng))}:{lst(pats)}")
     return g.case_line(chunk, params["sendSliceSize"], g.script_wire(ticks, pieces), [], ops)
 
 
 def classify(line, obs):
     ks = classify_common(line, obs)
+    ks.append("icase=%d" % any(":I" in o or ",I" in o for o in line.split()[4:]))
     for o in obs.split()[1:]:
         r = o.split(";")[0]
         if r.startswith("x:"):
